@@ -8,6 +8,8 @@ import (
 	"go/types"
 	"sort"
 	"strings"
+
+	"golang.org/x/tools/go/cfg"
 )
 
 // seek-orientation
@@ -1122,5 +1124,193 @@ func (s *seekScan) rangeTranslation(nextKey func(string) string) {
 			"forward scans [prefix+start, end of prefix), backward scans [prefix, end of prefix+start)",
 			"backend range does not follow the scan direction: "+strings.Join(bad, "; "))
 		return
+	}
+}
+
+// seek-stop-honoured: once the consumer of a range scan has said stop (returned false), it is never called again.
+// In performSeek the consumer is called from the merge callback handed to the lower store and from the tail loop over
+// the remaining in-memory items; the merge callback must record the stop in a variable that gates every later call.
+func ruleSeekStop(c *Ctx) {
+	fd := c.P.Func("pkg/core/storage", "", "performSeek")
+	if fd == nil {
+		c.Lost("anchor", "storage.performSeek not found")
+		return
+	}
+	// the consumer: the parameter of func type returning bool
+	var consumer types.Object
+	for _, fl := range fd.Decl.Type.Params.List {
+		if sig, ok := fd.Pkg.TypesInfo.TypeOf(fl.Type).(*types.Signature); ok && sig.Results().Len() == 1 && isBoolType(sig.Results().At(0).Type()) {
+			for _, nm := range fl.Names {
+				consumer = fd.Pkg.TypesInfo.Defs[nm]
+			}
+		}
+	}
+	if consumer == nil {
+		c.Lost("consumer", "performSeek has no consumer callback parameter")
+		return
+	}
+	isConsumerCall := func(info *types.Info, e ast.Expr) bool {
+		call, ok := ast.Unparen(e).(*ast.CallExpr)
+		if !ok {
+			return false
+		}
+		id, ok := ast.Unparen(call.Fun).(*ast.Ident)
+		return ok && info.ObjectOf(id) == consumer
+	}
+	info := fd.Pkg.TypesInfo
+	nsites := 0
+	flagNames := map[string]bool{}
+	check := func(f *FuncCFG, name string, isLit bool) {
+		// the stop flag: a bool variable assigned `true` in this body
+		for _, b := range f.G.Blocks {
+			if !b.Live {
+				continue
+			}
+			cond := f.Cond(b)
+			if cond == nil {
+				continue
+			}
+			// `!consumer(...)` / `consumer(...)` as the whole condition
+			for range []int{0} {
+				e := ast.Unparen(cond)
+				neg := false
+				for {
+					u, ok := e.(*ast.UnaryExpr)
+					if !ok || u.Op != token.NOT {
+						break
+					}
+					neg = !neg
+					e = ast.Unparen(u.X)
+				}
+				if !isConsumerCall(info, e) {
+					mentions := false
+					ast.Inspect(cond, func(x ast.Node) bool {
+						if ex, ok := x.(ast.Expr); ok && isConsumerCall(info, ex) {
+							mentions = true
+						}
+						return true
+					})
+					if mentions {
+						nsites++
+						c.Unclassified(fmt.Sprintf("%s.stop#%d", name, nsites), c.P.Pos(cond.Pos()), "the consumer's answer is part of a compound condition the rule does not read")
+					}
+					continue
+				}
+				nsites++
+				stopSucc := b.Succs[1] // consumer returned false
+				if neg {
+					stopSucc = b.Succs[0]
+				}
+				key := fmt.Sprintf("%s.stop#%d", name, nsites)
+				pos := c.P.Pos(cond.Pos())
+				// from the stop edge no consumer call may be reachable inside this body ...
+				var again []string
+				r := f.reach([]*cfg.Block{stopSucc}, nil, nil)
+				for _, ob := range f.G.Blocks {
+					if _, ok := r[ob]; !ok {
+						continue
+					}
+					for _, n := range ob.Nodes {
+						inspectNoLit(n, func(x ast.Node) bool {
+							if ex, ok := x.(ast.Expr); ok && isConsumerCall(info, ex) {
+								again = append(again, c.P.Pos(x.Pos()))
+							}
+							return true
+						})
+					}
+				}
+				if len(again) > 0 {
+					c.Fail(key, pos, "after the consumer returned false it can be called again at "+strings.Join(again, ", "))
+					continue
+				}
+				if !isLit {
+					c.OK(key, pos, "the scan ends when the consumer says stop")
+					continue
+				}
+				// ... and, inside the merge callback, every path from the stop edge to a return records the stop
+				sets := map[*cfg.Block]bool{}
+				for _, ob := range f.G.Blocks {
+					for _, n := range ob.Nodes {
+						if as, ok := n.(*ast.AssignStmt); ok && len(as.Lhs) == 1 && len(as.Rhs) == 1 {
+							if v, isC := boolConst(info, as.Rhs[0]); isC && v {
+								if id, ok := as.Lhs[0].(*ast.Ident); ok && isBoolType(info.TypeOf(id)) {
+									sets[ob] = true
+									if _, onStopPath := r[ob]; onStopPath {
+										flagNames[id.Name] = true
+									}
+								}
+							}
+						}
+					}
+				}
+				rr := f.reach([]*cfg.Block{stopSucc}, sets, nil)
+				leak := ""
+				for _, rs := range f.Returns() {
+					if sets[rs.blk] {
+						continue
+					}
+					if _, ok := rr[rs.blk]; ok {
+						leak = c.P.Pos(rs.node.Pos())
+					}
+				}
+				if sets[stopSucc] {
+					leak = ""
+				}
+				if leak != "" {
+					c.Fail(key, pos, "the merge callback returns (at "+leak+") after the consumer said stop without recording it: the tail loop over the remaining in-memory items still delivers to the consumer")
+				} else {
+					c.OK(key, pos, "the stop is recorded before the merge callback returns")
+				}
+			}
+		}
+	}
+	outer := c.P.NewFuncCFG(fd)
+	check(outer, "performSeek", false)
+	li := 0
+	ast.Inspect(fd.Decl.Body, func(n ast.Node) bool {
+		lit, ok := n.(*ast.FuncLit)
+		if !ok {
+			return true
+		}
+		li++
+		lf := c.P.NewLitCFG(info, fmt.Sprintf("performSeek$%d", li), lit)
+		if lf != nil {
+			check(lf, fmt.Sprintf("performSeek$%d", li), true)
+		}
+		return true
+	})
+	c.Floor("consumer calls whose result is tested in performSeek", nsites, 3)
+	// the tail loop runs only if no stop was recorded (the flag is the variable the merge callback sets)
+	var alts [][]string
+	for n := range flagNames {
+		alts = append(alts, []string{"local:" + n})
+	}
+	if len(alts) != 1 {
+		c.Lost("stop-flag", fmt.Sprintf("expected one stop flag set by the merge callback, found %d", len(alts)))
+		return
+	}
+	targets := map[*cfg.Block]bool{}
+	for _, b := range outer.G.Blocks {
+		if !b.Live {
+			continue
+		}
+		for _, n := range b.Nodes {
+			inspectNoLit(n, func(x ast.Node) bool {
+				if ex, ok := x.(ast.Expr); ok && isConsumerCall(info, ex) {
+					targets[b] = true
+				}
+				return true
+			})
+		}
+	}
+	if len(targets) == 0 {
+		c.OK("performSeek.tail", c.P.Pos(fd.Decl.Pos()), "no consumer call outside the merge callback")
+		return
+	}
+	res := outer.CheckGate(outer.Entry(), targets, Guard{ID: "not-stopped", Doc: "the remaining in-memory items are delivered only if the consumer has not said stop", Alts: alts}, nil)
+	if res.OK {
+		c.OK("performSeek.tail", c.P.Pos(fd.Decl.Pos()), "the tail loop over in-memory items is gated by the stop flag: "+res.Msg)
+	} else {
+		c.Fail("performSeek.tail", c.P.Pos(fd.Decl.Pos()), "the tail loop over the remaining in-memory items can call the consumer although it has said stop: "+res.Msg, res.Path...)
 	}
 }
